@@ -86,10 +86,19 @@ impl<T: DictionaryAccess> MorphemeList<T> {
         }
     }
 
+    /// Lists produced by split_into / copy_slice / empty_clone share the text of their source list.
+    /// A list which is about to receive another text must not overwrite it under them.
+    fn detach_input(&mut self) {
+        if Rc::strong_count(&self.input) > 1 {
+            self.input = Rc::new(RefCell::new(InputPart::default()));
+        }
+    }
+
     pub fn collect_results<U: DictionaryAccess>(
         &mut self,
         analyzer: &mut StatefulTokenizer<U>,
     ) -> SudachiResult<()> {
+        self.detach_input();
         match self.input.try_borrow_mut() {
             Ok(mut i) => {
                 let mref = i.deref_mut();
@@ -198,6 +207,7 @@ impl<T: DictionaryAccess> MorphemeList<T> {
     }
 
     pub fn lookup(&mut self, query: &str, subset: InfoSubset) -> SudachiResult<usize> {
+        self.detach_input();
         let end_chars = {
             let part = &mut *self.input.borrow_mut();
             // the list now holds words loaded with this field request (split_into loads the parts with it)
